@@ -115,6 +115,14 @@ KERNELS = [
          self_tree=True, uses=["find_end_subtree_from_i"]),
     dict(name="Tree_concat", file="base/_tree.py", cls="Tree", func="concat", params=[("index", "Int"), ("other_tree", "Tree")], ret="Tree",
          self_tree=True, tree_methods={"subtree_id": "Tree_subtree_id"}),
+    # ---- the integer counting loops of the classification metrics (the float tail - per-class ratios and their mean - is
+    #      not translated: `until` names the first statement that is left out, `returns` the arrays handed back)
+    dict(name="recall_counts", file="utils/_metrics.py", func="recall_score", params=[("y_true", "Arr"), ("y_predict", "Arr")], ret="Mat",
+         ext={"np.unique": ("classes", "Arr")}, until="for i in range(n_classes)", returns=["true_positives", "false_negatives"], skip_float_zeros=True),
+    dict(name="precision_counts", file="utils/_metrics.py", func="precision_score", params=[("y_true", "Arr"), ("y_predict", "Arr")], ret="Mat",
+         ext={"np.unique": ("classes", "Arr")}, until="for i in range(n_classes)", returns=["true_positives", "false_negatives"], skip_float_zeros=True),
+    dict(name="f1_counts", file="utils/_metrics.py", func="f1_score", params=[("y_true", "Arr"), ("y_predict", "Arr")], ret="Mat",
+         ext={"np.unique": ("classes", "Arr")}, until="for i in range(n_classes)", returns=["true_positives", "false_negatives", "down_precision"], skip_float_zeros=True),
     dict(name="tournament_selection", file="utils/selections.py", func="tournament_selection",
          params=[("fitness", "Arr"), ("rank", "Arr"), ("tour_size", "Int"), ("quantity", "Int")], ret="Arr",
          ext_stream={"random_sample": "samples"}),
@@ -562,8 +570,9 @@ class Tr:
                 return f"(Imp.argmax (Imp.gather {self.E(args[0].value, env)} {self.E(args[0].slice, env)}))"
             if isinstance(f, ast.Attribute) and f.attr == "copy" and not args:
                 return self.E(f.value, env)
-            if is_np(f, "empty", "zeros") and len(args) >= 1:
-                return f"(List.replicate ({self.E(args[0], env)}).toNat (0 : Int))"
+            if is_np(f, "empty", "zeros") and (len(args) >= 1 or any(k.arg == "shape" for k in e.keywords)):
+                shp = args[0] if args else next(k.value for k in e.keywords if k.arg == "shape")
+                return f"(List.replicate ({self.E(shp, env)}).toNat (0 : Int))"
             if is_np(f, "empty_like") and len(args) == 1:
                 return f"(List.replicate ({self.E(args[0], env)}).length (0 : Int))"
             if is_np(f, "arange") and len(args) == 1:
@@ -777,6 +786,16 @@ class Tr:
                 L.append("(let s0 := s; " + "; ".join(lets) + "; " + cur + ")")
                 return L
             raise NotRecognised(f"assignment target {ast.unparse(t)}")
+        if isinstance(st, ast.AugAssign) and isinstance(st.target, ast.Subscript) and isinstance(st.target.value, ast.Name) \
+                and self.locals.get(st.target.value.id) == "Arr" and not isinstance(st.target.slice, ast.Slice):
+            op = {ast.Add: "+", ast.Sub: "-", ast.Mult: "*"}.get(type(st.op))
+            if op is None:
+                raise NotRecognised("augmented operator")
+            a = self.id(st.target.value.id)
+            env = self.pre([st.value, st.target.slice], L)
+            i = self.E(st.target.slice, env)
+            L.append(f"{{ s with err := s.err || (! Imp.inb s.{a} {i}), {a} := Imp.seti s.{a} {i} ((Imp.geti s.{a} {i}) {op} {self.E(st.value, env)}) }}")
+            return L
         if isinstance(st, ast.AugAssign) and (isinstance(st.target, ast.Name) or (isinstance(st.target, ast.Attribute) and self.self_path(st.target) in self.self_state)):
             op = {ast.Add: "+", ast.Sub: "-", ast.Mult: "*"}.get(type(st.op))
             if op is None:
@@ -964,6 +983,24 @@ KERNEL_BY_NAME = {k["name"]: k for k in KERNELS}
 def translate(repo: Path, cfg: dict) -> str:
     src = (repo / "src" / "thefittest" / cfg["file"]).read_text()
     fn = find_func(ast.parse(src), cfg.get("cls"), cfg["func"])
+    if cfg.get("until"):
+        # prefix translation: the statements before the first one starting with `until`, then `return [arrays]`
+        cut = next((k for k, st in enumerate(fn.body) if ast.unparse(st).startswith(cfg["until"])), None)
+        if cut is None:
+            raise NotRecognised(f"statement '{cfg['until']}' not found")
+        body = []
+        for st in fn.body[:cut]:
+            if cfg.get("skip_float_zeros") and isinstance(st, ast.Assign) and isinstance(st.value, ast.Call) and is_np(st.value.func, "zeros") \
+                    and any(k.arg == "dtype" and ast.unparse(k.value).endswith("float64") for k in st.value.keywords):
+                continue        # a float result array that only the untranslated tail uses
+            body.append(st)
+        tail_names = {n.id for st in fn.body[cut:] for n in ast.walk(st) if isinstance(n, ast.Name)}
+        missing = [r for r in cfg["returns"] if r not in tail_names]
+        if missing:
+            raise NotRecognised(f"the untranslated tail no longer uses {missing}")
+        body.append(ast.Return(value=ast.List(elts=[ast.Name(id=r, ctx=ast.Load()) for r in cfg["returns"]], ctx=ast.Load())))
+        fn = ast.FunctionDef(name=fn.name, args=fn.args, body=body, decorator_list=[], returns=None, type_comment=None)
+        ast.fix_missing_locations(fn)
     return Tr(fn, cfg).render()
 
 
